@@ -53,11 +53,14 @@ def build(op, model, rng, dtype, atom):
         x = gens.relayout(gens.safe_source(rng, od, dtype, (3,) + atom), rng.choice(['F', 'strided', 'C']))
         return model + [np.asarray(x).astype(dtype)], lambda D, ra, p: (ra.append(x), ra)[1]
     if op == 'iterfromragged':     # the iterable handed to iterappend is itself a RaggedArray object
-        items = [item(rng, dtype, atom, k) for k in (2, 0, 1)]
+        small = [((np.arange(k * (int(np.prod(atom)) if atom else 1)) % 50) + 1).reshape((k,) + tuple(atom)) for k in (2, 0, 1)]
+        items = [x.astype(dtype) for x in small]
+        sdt = rng.choice([dtype, gens.dt(rng.choice(gens.T13), rng.choice(gens.BO))])    # the source may hold another type
+        how = rng.choice(['object', 'iter_arrays'])
 
         def do(D, ra, p):
-            src = D.asraggedarray(p.parent / (p.name + '_src'), [x.copy() for x in items], dtype=dtype, overwrite=True)
-            ra.iterappend(src)
+            src = D.asraggedarray(p.parent / (p.name + '_src'), [x.astype(sdt) for x in small], dtype=sdt, overwrite=True)
+            ra.iterappend(src if how == 'object' else src.iter_arrays())
             return ra
         return model + items, do
     if op == 'appswapped':      # same numeric type as the array, opposite byte order
@@ -372,8 +375,15 @@ def make_start(env, D, path, st, rng):
         model = []
     else:
         model = [item(rng, dtype, atom, k) for k in PATTERNS[st['pattern']]]
-        ra = D.asraggedarray(path, [m.copy() for m in model], dtype=dtype if st.get('dtypearg') else None,
-                             indextype=st['indextype'], metadata=md, accessmode='r+')
+        import zlib
+        if zlib.crc32(repr(sorted(st.items(), key=str)).encode()) % 4 == 0:
+            # the handle comes in the default mode r and is made writable by assignment afterwards
+            ra = D.asraggedarray(path, [m.copy() for m in model], dtype=dtype if st.get('dtypearg') else None,
+                                 indextype=st['indextype'], metadata=md)
+            ra.accessmode = 'r+'
+        else:
+            ra = D.asraggedarray(path, [m.copy() for m in model], dtype=dtype if st.get('dtypearg') else None,
+                                 indextype=st['indextype'], metadata=md, accessmode='r+')
     return ra, model, dtype, atom
 
 
